@@ -199,6 +199,10 @@ class EvoCmdSuite(ProgBaseSuite):
                     wells = [wid(rr, col) for rr in rows]
                     if rng.random() < 0.04 and C > 1 and nw > 1:
                         wells[-1] = wid(rows[-1], (col + 1) % C)
+                    elif rng.random() < 0.06 and C > 1 and nw > 2:
+                        # ascending ids from two columns whose first and last well share a column
+                        j = rng.randrange(1, nw - 1)
+                        wells[j] = wid(rows[j], (col + 1) % C)
                     asp = rng.random() < 0.5
                     vols = []
                     for w in wells:
